@@ -226,7 +226,7 @@ impl Prop for C08 {
     }
     fn rule(&self) -> String {
         "soundness: every list of the C07 text sources (strided 1/3 in quick) plus every list seen in the completeness walks is classified candidate by candidate; \
-         completeness: for each base (bundled auto-correct keys, dictionary-guided spellings, user auto-correct keys; 3 per shard quick, all in thorough; all lower-case strings of length <= 2 quick / 3 thorough with the one- and two-letter suffixes) \
+         completeness: for each base (11 fixed bases whose candidates end in ৎ / ং / a vowel, `hongkong` and seed-chosen dictionary words with two ৎ/ং (2 in quick, all 33 in thorough), bundled auto-correct keys, dictionary-guided spellings, user auto-correct keys; 3 per shard quick, all in thorough; all lower-case strings of length <= 2 quick / 3 thorough with the one- and two-letter suffixes) \
          the base is typed once, its direct candidates are read off the observed list with O-dict, then the 737 suffix keys are walked as a trie (type a letter, judge, recurse, backspace); a tenth of the bases wrapped in punctuation/quotes. \
          distinct_nontrivial = distinct (typed text, direct candidate) obligations whose joined form was looked for."
             .into()
